@@ -28,7 +28,7 @@ from vf import core
 
 CLASS_ORDER = ("esc", "c0", "del", "c1", "sp", "print", "uni", "bin")
 FORBIDDEN = ("esc", "c0", "del", "c1")
-ECC_KEEPS_C1 = True  # strutils.escape_control_characters leaves U+0080..U+009F alone (model constant)
+ECC_KEEPS_C1 = False  # strutils.escape_control_characters translates C1 as well since /repo a273e7200 (model constant)
 
 
 def char_class(ch: str) -> str:
